@@ -93,3 +93,40 @@ Proof.
   destruct (dget (kw "type") d) as [t|]; [|inversion ET; reflexivity].
   cbv zeta in ET. destruct (hashable_all (to_list t)); inversion ET; reflexivity.
 Qed.
+
+(* ---------- the "required" fence: every declared property has an omission branch, marked invalid exactly when the
+   property is (still) required ---------- *)
+Lemma obj_step_omit f p root s rem key value s' rem' :
+  jgi s -> root < jlen s -> is_dec (jb_graph s) root = true ->
+  obj_step f p root (s, rem) (key, value) = Ok (s', rem') ->
+  exists omit, In omit (outs_of (jb_graph s') (jlen s)) /\ kind_of (jb_graph s') omit = KLeaf (negb (smem key rem)) /\
+               is_dec (jb_graph s') (jlen s) = true /\ rem' = filter (fun x => negb (str_eqb x key)) rem.
+Proof.
+  intros Gs Lr Dr H. unfold obj_step, jnoop, jnoop_leaf in H. cbv zeta in H.
+  set (sp := padd (padd p (kw "properties")) key) in *.
+  destruct (jgi_new (KDec false true) (sfx sp "__PROP") JPNone s Gs) as (Ga & Ea & La & Ka & Sa). cbv zeta in *.
+  destruct (jnew (KDec false true) (sfx sp "__PROP") JPNone s) as [sa pr] eqn:ENa. cbn [fst snd] in *. subst pr.
+  assert (Dpr : is_dec (jb_graph sa) (jlen s) = true) by (unfold is_dec; rewrite Ka; reflexivity).
+  destruct (jgi_add root (jlen s) sa Ga) as (Gb & Eb & Lb); [apply (jext_dec s); auto|lia|].
+  set (sb := jadd root (jlen s) sa) in *.
+  destruct (jgi_new (KDec false false) (sfx sp "__KEY") (JPKey key) sb Gb) as (Gc & Ec & Lc & Kc & Sc). cbv zeta in *.
+  destruct (jnew (KDec false false) (sfx sp "__KEY") (JPKey key) sb) as [sc kn] eqn:ENc. cbn [fst snd] in *. subst kn.
+  assert (Dkn : is_dec (jb_graph sc) (jlen sb) = true) by (unfold is_dec; rewrite Kc; reflexivity).
+  assert (Eac : jext sa sc) by (eapply jext_trans; eauto).
+  destruct (jgi_add (jlen s) (jlen sb) sc Gc) as (Gd & Ed & Ld); [apply (jext_dec sa); auto; lia|lia|].
+  set (sd := jadd (jlen s) (jlen sb) sc) in *.
+  destruct (parse_dict f value sp sd) as [[se vn]| | |] eqn:EP; cbn [bind] in H; try discriminate.
+  destruct (parse_dict_good f value sp sd se vn Gd EP) as (Ge & Ee & Le).
+  assert (Ece : jext sc se) by (eapply jext_trans; eauto).
+  destruct (jgi_add (jlen sb) vn se Ge) as (Gf & Ef & Lf); [apply (jext_dec sc); auto; lia|exact Le|].
+  set (sf := jadd (jlen sb) vn se) in *.
+  destruct (jgi_new (KLeaf (negb (smem key rem))) None JPNone sf Gf) as (Gg & Eg & Lg & Kg & Sg). cbv zeta in *.
+  destruct (jnew (KLeaf (negb (smem key rem))) None JPNone sf) as [sg om] eqn:ENg. cbn [fst snd] in *. subst om.
+  assert (Eag : jext sa sg) by (eapply jext_trans; [exact Eac|eapply jext_trans; [exact Ece|eapply jext_trans; eauto]]).
+  assert (Dg : is_dec (jb_graph sg) (jlen s) = true) by (apply (jext_dec sa); auto; lia).
+  assert (Lsa : jlen s < jlen sg) by (destruct Eag; lia).
+  inversion H; subst s' rem'. unfold jadd. cbn [jb_graph].
+  destruct (add_transition_spec (jb_graph sg) (jlen s) (jlen sf) Lsa ltac:(unfold jlen in *; lia)) as (K & O & _ & _).
+  exists (jlen sf). split; [rewrite O, Nat.eqb_refl; apply in_or_app; right; left; reflexivity|].
+  split; [rewrite K; exact Kg|]. split; [unfold is_dec; rewrite K; exact Dg|reflexivity].
+Qed.
